@@ -43,10 +43,10 @@ def configs(tier):
                     out.append(dict(entry='fast_nonMarkov_SIS', graph=g, I0=I0, R0=[], full=full, form=form, tmax='sym',
                                     max_infections=3 if (tier == 'quick' or g != 'K2') else 4, delays_per_pair=2 if (g == 'K2' or (tier == 'thorough' and len(I0) == 1)) else 1,
                                     tags=[g, form, 'full' if full else 'plain']))
-                    if g == 'P3' and full and form == 'separate' and I0 in ([0, 2], [1]) and tier == 'quick':
+                    if g == 'P3' and full and form == 'separate' and I0 in ([0, 2], [1]):
                         # a source with two neighbours and two listed delays per neighbour (chained attempts towards each of them)
                         out.append(dict(entry='fast_nonMarkov_SIS', graph=g, I0=I0, R0=[], full=full, form=form, tmax='sym',
-                                        max_infections=3 if len(I0) > 1 else 2, delays_per_pair=2, fixed_ndelays=True, tags=[g, form, 'two-delays']))
+                                        max_infections=(4 if tier == 'thorough' else 3) if len(I0) > 1 else 2, delays_per_pair=2, fixed_ndelays=True, tags=[g, form, 'two-delays']))
                     if g == 'K2' and full:
                         out.append(dict(entry='fast_nonMarkov_SIS', graph=g, I0=I0, R0=[], full=full, form=form, tmax='sym', fxn_args=True,
                                         max_infections=3, delays_per_pair=1, tags=[g, form, 'fxn-args']))
